@@ -127,6 +127,12 @@ impl Prop for C19 {
         ]
         .boxed()
     }
+    fn extra_evidence(&self, root: &std::path::Path) -> serde_json::Value {
+        crate::engine::fuzz_stats(root, "graphml_read")
+    }
+    fn case_timeout_s(&self) -> u64 {
+        20
+    }
     fn random_cases(&self, tier: Tier) -> u32 {
         tier.pick(400_000, 4_000_000)
     }
